@@ -109,6 +109,17 @@ func runC16(c *Ctx) {
 		Guards:  map[string][]string{parsed: {"strconv.ParseFloat(*args[0].Str, 64)#1 == nil", "args[0].Tag == ValueStr", "lang.checkArgCount(args, 1) == nil"}},
 		Source:  "num(s): strconv.ParseFloat(s, 64), null on its error and for non-string non-number arguments",
 	})
+	if numFn != nil {
+		for _, rc := range p.successResults(numFn) {
+			if canonConstructors(rc.Value) != neutralNull {
+				continue
+			}
+			g := setOf(rc.Guards)
+			if g["args[0].Tag == ValueStr"] {
+				c.check(g["strconv.ParseFloat(*args[0].Str, 64)#1 != nil"], "R1", "builtin num null-for-strings", p.InstrPos(rc.Ret), "a string gives null only when ParseFloat rejects it", "num(s) returns null for a string on a path where strconv.ParseFloat did not fail: some numeric strings (a signed exponent, a hex float) are screened out before or after the conversion")
+			}
+		}
+	}
 	// the builtins are registered under their documented names
 	reg := p.LangFunc("addRuntimeFunctions")
 	if reg == nil {
